@@ -43,7 +43,7 @@ def run(tier):
     for i, v in enumerate(vecs):
         r = rows[i]
         norm = math.sqrt(sum(x * x for x in v["x"])) or 1.0
-        tol = Decimal(1e-9 * norm)
+        tol = Decimal(16 * 2.220446049250313e-16 * max(1, (v["N"]).bit_length() - 1) * norm)   # 16 eps log2 N ||x||
         bad = None
         if r.get("panic") or r.get("err"):
             bad = "panic/err: %s" % r.get("panic")
@@ -79,6 +79,7 @@ def run(tier):
             add(kind="new", N=N)
     for N in ((1 << 27) + 1, (1 << 27) + 12345, 1 << 30, 2147483647, -5, -(1 << 20)):
         add(kind="new", N=N)
+    add(kind="new", N=1 << 27)      # the largest legal length is really constructed once (about 3 GiB for a few seconds)
     maxf = 20 if thorough else 14
     for e in range(1, maxf + 1):
         N = 1 << e
@@ -120,8 +121,8 @@ def run(tier):
                 "code: exact spectra of integer inputs for N <= 64 (128); impulse (every position for small N) and tone families with TLC-judged sampled bins and a full-vector float screen "
                 "for N = 2^1..2^14 (2^20); inverse round trips; constructor for all N in -2..1200 (5000) and around every 2^k; wrong-length refusal")
     run.explanation = "Exact arithmetic over Z[zeta_N] in the model; closed forms exp(-2 pi i jk/N) evaluated by the real layer for the code."
-    run.assumptions = ["transforms above 2^20 points are not executed; the 2^27 limit is checked on the error side (2^27+1 refused) and by the LastPow2 model",
-                       "tolerance 1e-9 * ||x|| for floating-point accumulation"]
+    run.assumptions = ["transforms above 2^20 points are not executed; the 2^27 limit is checked on both sides of the constructor (2^27 constructed once, 2^27+1 refused) and by the LastPow2 model",
+                       "allowance 16 eps log2 N ||x|| (impulses, integer vectors, round trips) and 64 eps sqrt N ||x|| (tones, whose input is itself rounded); the pinned code measures 1.4 eps log2 N resp. 11 eps sqrt N"]
     run.finish()
 
 
